@@ -539,6 +539,327 @@ fn run(line: &str) -> String {
     out
 }
 
+
+// ------------------------------------------------------------------------------------------------
+// Free-running stress engine (`stress key=value ...` line): a real exporter, reading clients, emitter
+// threads that emit at about the transport's drain rate (a short spin between emissions), never
+// more than the configured buffer in flight (rounds of `per` emissions per emitter, then a wait
+// until every client has received all of them).  Judged by the delivery clause: every emitted
+// metric arrives at every client, per emitter in order, each frame whole.  Only "never arrives"
+// (no byte of progress at any client for `wait` ms while emissions are outstanding) is a stall.
+
+fn rd_varint(b: &[u8], pos: &mut usize) -> Option<u64> {
+    let mut v: u64 = 0;
+    let mut shift = 0;
+    loop {
+        let x = *b.get(*pos)?;
+        *pos += 1;
+        v |= ((x & 0x7f) as u64) << shift;
+        if x < 0x80 {
+            return Some(v);
+        }
+        shift += 7;
+        if shift > 63 {
+            return None;
+        }
+    }
+}
+
+/// one protobuf message -> (field, wire type, varint value or payload range)
+fn rd_fields(b: &[u8]) -> Option<Vec<(u64, u8, u64, usize, usize)>> {
+    let mut pos = 0;
+    let mut out = vec![];
+    while pos < b.len() {
+        let tag = rd_varint(b, &mut pos)?;
+        let (f, wt) = (tag >> 3, (tag & 7) as u8);
+        match wt {
+            0 => out.push((f, wt, rd_varint(b, &mut pos)?, 0, 0)),
+            1 => {
+                if pos + 8 > b.len() {
+                    return None;
+                }
+                out.push((f, wt, 0, pos, pos + 8));
+                pos += 8;
+            }
+            2 => {
+                let n = rd_varint(b, &mut pos)? as usize;
+                if pos + n > b.len() {
+                    return None;
+                }
+                out.push((f, wt, 0, pos, pos + n));
+                pos += n;
+            }
+            5 => {
+                if pos + 4 > b.len() {
+                    return None;
+                }
+                out.push((f, wt, 0, pos, pos + 4));
+                pos += 4;
+            }
+            _ => return None,
+        }
+    }
+    Some(out)
+}
+
+/// Event body -> Some((name, counter increment)) for a metric, None-in-Ok for metadata
+fn rd_event(body: &[u8]) -> Result<Option<(String, u64)>, String> {
+    let fs = rd_fields(body).ok_or("event does not parse")?;
+    if fs.len() != 1 || fs[0].1 != 2 {
+        return Err("event is not one length-delimited field".into());
+    }
+    let (f, _, _, a, z) = fs[0];
+    if f == 1 {
+        return Ok(None);
+    }
+    if f != 2 {
+        return Err(format!("unknown event field {}", f));
+    }
+    let m = &body[a..z];
+    let ms = rd_fields(m).ok_or("metric does not parse")?;
+    let mut name = String::new();
+    let mut val = None;
+    for (f, wt, v, a, z) in ms {
+        if f == 1 && wt == 2 {
+            name = String::from_utf8_lossy(&m[a..z]).to_string();
+        }
+        if f == 4 && wt == 0 {
+            val = Some(v);
+        }
+    }
+    match val {
+        Some(v) => Ok(Some((name, v))),
+        None => Err("metric without increment_counter".into()),
+    }
+}
+
+#[derive(Default)]
+struct SState {
+    got: Vec<u64>, // per emitter: last value received (values are 1, 2, 3, ...)
+    bytes: u64,
+    err: Option<String>,
+}
+
+fn stress_reader(mut stream: TcpStream, st: Arc<Mutex<SState>>, stop: Arc<AtomicBool>) {
+    let _ = stream.set_read_timeout(Some(Duration::from_millis(5)));
+    let mut pending: Vec<u8> = Vec::new();
+    let mut tmp = vec![0u8; 1 << 16];
+    while !stop.load(Ordering::Acquire) {
+        let n = match stream.read(&mut tmp) {
+            Ok(0) => {
+                std::thread::sleep(Duration::from_millis(1));
+                continue;
+            }
+            Ok(n) => n,
+            Err(_) => continue,
+        };
+        pending.extend_from_slice(&tmp[..n]);
+        let mut pos = 0;
+        let mut evs = vec![];
+        let mut err = None;
+        loop {
+            let mut p = pos;
+            let len = match rd_varint(&pending, &mut p) {
+                Some(l) => l as usize,
+                None => break,
+            };
+            if p + len > pending.len() {
+                break;
+            }
+            match rd_event(&pending[p..p + len]) {
+                Ok(Some(e)) => evs.push(e),
+                Ok(None) => {}
+                Err(e) => {
+                    err = Some(format!("frame at stream offset does not decode: {}", e));
+                    break;
+                }
+            }
+            pos = p + len;
+        }
+        pending.drain(..pos);
+        let mut g = st.lock().unwrap();
+        g.bytes += n as u64;
+        for (name, v) in evs {
+            let idx = name.strip_prefix('e').and_then(|x| x.parse::<usize>().ok());
+            match idx {
+                Some(i) if i < g.got.len() => {
+                    if v != g.got[i] + 1 && g.err.is_none() {
+                        g.err = Some(format!("emitter {}: expected value {} next, received {}", name, g.got[i] + 1, v));
+                    }
+                    g.got[i] = v;
+                }
+                _ => {
+                    if g.err.is_none() {
+                        g.err = Some(format!("metric with unknown name {}", name));
+                    }
+                }
+            }
+        }
+        if g.err.is_none() {
+            g.err = err;
+        }
+    }
+}
+
+fn stress(line: &str) -> String {
+    let mut limit: Option<usize> = Some(4096);
+    let (mut nclients, mut nemit, mut per, mut spin, mut secs, mut wait) = (1usize, 1usize, 300u64, 250u64, 8u64, 10_000u64);
+    for tok in line.split_whitespace() {
+        if let Some((k, v)) = tok.split_once('=') {
+            match k {
+                "limit" => limit = if v == "none" { None } else { v.parse().ok() },
+                "clients" => nclients = v.parse().unwrap_or(1),
+                "emitters" => nemit = v.parse().unwrap_or(1),
+                "per" => per = v.parse().unwrap_or(300),
+                "spin" => spin = v.parse().unwrap_or(250),
+                "secs" => secs = v.parse().unwrap_or(8),
+                "wait" => wait = v.parse().unwrap_or(10_000),
+                _ => {}
+            }
+        }
+    }
+    let mut built = None;
+    for _ in 0..20 {
+        let port = free_port();
+        if port == 0 {
+            continue;
+        }
+        let addr: SocketAddr = ([127, 0, 0, 1], port).into();
+        if let Ok(r) = TcpBuilder::new().listen_address(addr).buffer_size(limit).build() {
+            built = Some((port, r));
+            break;
+        }
+    }
+    let (port, rec) = match built {
+        Some(x) => x,
+        None => return "error=build".into(),
+    };
+    let rec = Arc::new(rec);
+    let stop = Arc::new(AtomicBool::new(false));
+    let mut states = vec![];
+    let mut readers = vec![];
+    for _ in 0..nclients {
+        let stream = match TcpStream::connect(("127.0.0.1", port)) {
+            Ok(s) => s,
+            Err(_) => return "stress ok=0 kind=connect".into(),
+        };
+        let lport = stream.local_addr().map(|a| a.port()).unwrap_or(0);
+        if !wait_until(10_000, || verif::with_inst(port, |i| i.accepted_ports.contains(&lport))) {
+            return "stress ok=0 kind=not-accepted".into();
+        }
+        let st = Arc::new(Mutex::new(SState { got: vec![0; nemit], bytes: 0, err: None }));
+        let (s2, stop2) = (st.clone(), stop.clone());
+        readers.push(std::thread::spawn(move || stress_reader(stream, s2, stop2)));
+        states.push(st);
+    }
+    // emitters: persistent threads, one round at a time
+    let go = Arc::new(AtomicUsize::new(0));
+    let done = Arc::new(AtomicUsize::new(0));
+    let mut emitters = vec![];
+    for e in 0..nemit {
+        let (rec, go, done, stop) = (rec.clone(), go.clone(), done.clone(), stop.clone());
+        emitters.push(std::thread::spawn(move || {
+            let key = Key::from_parts(format!("e{}", e), vec![Label::new("t", e.to_string())]);
+            let counter = rec.register_counter(&key, &META);
+            let mut round = 0usize;
+            let mut seq = 0u64;
+            loop {
+                while go.load(Ordering::Acquire) <= round {
+                    if stop.load(Ordering::Acquire) {
+                        return;
+                    }
+                    std::hint::spin_loop();
+                }
+                for i in 0..per {
+                    seq += 1;
+                    counter.increment(seq);
+                    let until = Instant::now() + Duration::from_nanos(((i + round as u64 + e as u64) % 32) * spin);
+                    while Instant::now() < until {
+                        std::hint::spin_loop();
+                    }
+                }
+                round += 1;
+                done.fetch_add(1, Ordering::AcqRel);
+            }
+        }));
+    }
+    let t0 = Instant::now();
+    let mut rounds = 0u64;
+    let mut verdict = String::new();
+    'outer: while t0.elapsed() < Duration::from_secs(secs) {
+        rounds += 1;
+        go.store(rounds as usize, Ordering::Release);
+        while done.load(Ordering::Acquire) < rounds as usize * nemit {
+            std::thread::yield_now();
+        }
+        let want = rounds * per;
+        let mut last_bytes: u64 = 0;
+        let mut last_progress = Instant::now();
+        loop {
+            let mut all = true;
+            let mut bytes = 0;
+            for (ci, st) in states.iter().enumerate() {
+                let g = st.lock().unwrap();
+                bytes += g.bytes;
+                if let Some(e) = &g.err {
+                    verdict = format!("kind=order client={} round={} detail={}", ci, rounds, e.replace(' ', "_"));
+                    break 'outer;
+                }
+                if g.got.iter().any(|&v| v < want) {
+                    all = false;
+                }
+            }
+            if all {
+                break;
+            }
+            if bytes != last_bytes {
+                last_bytes = bytes;
+                last_progress = Instant::now();
+            } else if last_progress.elapsed() > Duration::from_millis(wait) {
+                // which metric is the first one missing
+                let mut miss = String::new();
+                let mut recv = 0;
+                for (ci, st) in states.iter().enumerate() {
+                    let g = st.lock().unwrap();
+                    recv += g.got.iter().sum::<u64>();
+                    for (e, &v) in g.got.iter().enumerate() {
+                        if v < want && miss.is_empty() {
+                            miss = format!("client{}:e{}:{}", ci, e, v + 1);
+                        }
+                    }
+                }
+                verdict = format!(
+                    "kind=stall round={} emitted={} received={} first_missing={} waited_ms={}",
+                    rounds,
+                    want * nemit as u64 * nclients as u64,
+                    recv,
+                    miss,
+                    wait
+                );
+                break 'outer;
+            }
+            std::thread::sleep(Duration::from_micros(150));
+        }
+        verif::with_inst(port, |i| i.log.clear());
+    }
+    stop.store(true, Ordering::Release);
+    for h in emitters {
+        let _ = h.join();
+    }
+    for h in readers {
+        let _ = h.join();
+    }
+    verif::with_inst(port, |i| {
+        i.log.clear();
+        i.log.shrink_to_fit();
+    });
+    if verdict.is_empty() {
+        format!("stress ok=1 rounds={} emitted={} secs={:.1}", rounds, rounds * per * nemit as u64, t0.elapsed().as_secs_f64())
+    } else {
+        format!("stress ok=0 {}", verdict)
+    }
+}
+
 fn main() {
     let stdin = std::io::stdin();
     let stdout = std::io::stdout();
@@ -547,7 +868,7 @@ fn main() {
             Ok(l) => l,
             Err(_) => break,
         };
-        let res = std::panic::catch_unwind(|| run(&line)).unwrap_or_else(|_| "error=driver-panic".into());
+        let res = std::panic::catch_unwind(|| if line.starts_with("stress") { stress(&line) } else { run(&line) }).unwrap_or_else(|_| "error=driver-panic".into());
         let mut o = stdout.lock();
         let _ = writeln!(o, "{}", res);
         let _ = o.flush();
